@@ -326,3 +326,46 @@ Theorem C08_set_format_early_free_refuted :
     = Ok (ex_cfg, -1) (mkast 10 [5%nat]).
 Proof. exact set_format_early_free_refuted. Qed.
 Print Assumptions C08_set_format_early_free_refuted.
+
+(* ================= operations that need no memory, and shrinking (arraylist.c) *)
+(* (the slot-level versions — no out-of-bounds access, exact contents — are part of
+   C08_al_fault_clean: AlModel.al_step covers ODel and OShrink) *)
+
+(* json_object_array_del_idx: the model has no allocator argument, so this holds under every
+   allocator behaviour.  Done: range released once, capacity and slot array kept, no request
+   made.  Refused: nothing changed at all *)
+Theorem C08_array_del_clean : forall a idx count s rest,
+  Permutation (live s) (arr_blocks a ++ rest) ->
+  op_fault_clean eq s
+    (fun s' a' => Permutation (live s') (arr_blocks a' ++ rest) /\ nreq s' = nreq s /\
+                  ar_elems a' = zfirstn idx (ar_elems a) ++ zskipn (idx + count) (ar_elems a) /\
+                  ar_len a' = ar_len a - count /\ ar_size a' = ar_size a /\ ar_store a' = ar_store a)
+    (res_out (arr_del a idx count s)).
+Proof. exact arr_del_clean. Qed.
+Print Assumptions C08_array_del_clean.
+
+(* json_object_array_shrink: may fail; then the same blocks are live and the array is unchanged *)
+Theorem C08_array_shrink_clean : forall o a n s rest,
+  Permutation (live s) (arr_blocks a ++ rest) ->
+  op_fault_clean same_live s
+    (fun s' a' => Permutation (live s') (arr_blocks a' ++ rest) /\ ar_elems a' = ar_elems a /\ ar_len a' = ar_len a)
+    (res_out (arr_shrink o a n s)).
+Proof. exact arr_shrink_clean. Qed.
+Print Assumptions C08_array_shrink_clean.
+
+(* negative control (a delete that ends in "return array_list_shrink(...)": failure reported
+   after the array changed) and non-vacuity of the two statements above *)
+Theorem C08_del_reports_failure_after_change_refuted :
+  (let '(r, now) := arr_del_shrinking (single_fault 100) ex_arr40 0 35 ex_s40 in
+   r = Fail (mkast 101 [0; 1; 2; 45; 46; 47; 48; 49]%nat) /\
+   match now with Some a1 => ar_len a1 = 5 | None => False end) /\
+  arr_del ex_arr40 0 35 ex_s40
+    = Ok (mkarr 0 1 2 5 64 (map (fun i => [i]) (seq 45 5))) (mkast 100 [0; 1; 2; 45; 46; 47; 48; 49]%nat) /\
+  arr_del ex_arr40 38 3 ex_s40 = Fail ex_s40 /\
+  arr_shrink (single_fault 100) ex_arr40 0 ex_s40 = Fail (mkast 101 (live ex_s40)) /\
+  match arr_shrink no_fault ex_arr40 0 ex_s40 with
+  | Ok a' s' => ar_size a' = 40 /\ ar_store a' = 100%nat /\ ar_elems a' = ar_elems ex_arr40
+  | _ => False
+  end.
+Proof. exact del_reports_failure_after_change_refuted. Qed.
+Print Assumptions C08_del_reports_failure_after_change_refuted.
